@@ -614,7 +614,7 @@ def _first_draw_repeats(c):
     return len({tuple(r) for r in subs.tolist()}) < nz
 
 
-TRIGGERS = {
+INPUT_CLASSES = {
     # the first draw under this seed contains a repeated row (only then can the redraw loop end short of the request)
     "first_draw_has_repeated_row": lambda c: c.op in ("sp_from_function", "sptenrand") and _first_draw_repeats(c),
     "density_times_size_below_one": lambda c: c.op == "sptenrand" and c.args["mode"] == "density" and 0 < _total(c) * _req(c) < 1,
@@ -624,6 +624,13 @@ TRIGGERS = {
     "request_equals_size": lambda c: c.op in ("sp_from_function", "sptenrand")
     and (_total(c) * _req(c) if (c.op == "sptenrand" and c.args["mode"] == "density") else _req(c)) == _total(c),
 }
+
+
+# Only C20-N4 needs attribution: there the model is the CORRECT behaviour and pyttb disagrees on exactly this class.
+# For A-46 / C20-N1 / C20-N2 / C20-N3 the Coq check itself is "faithful model OR what the property asks"
+# (sprand_call_ok), so a defective-as-known or a repaired pyttb both pass and any THIRD behaviour is reported;
+# their input classes (named in findings.d/C20.jsonl) are kept in INPUT_CLASSES for documentation and the evidence.
+TRIGGERS = {"single_pair": INPUT_CLASSES["single_pair"]}
 
 
 def _w_a46():
